@@ -53,7 +53,12 @@ def build(desc, side, ctx=None):
         b.fns[role] = Fn(ctx, role, spec, mats(spec.get("table") or []), side)
     b.F = {role: f.callable for role, f in b.fns.items()}
     b.P = desc.get("params") or {}
-    b.V = _matv(b.P.get("v") or {})
+    b.V = _matv({k: d for k, d in (b.P.get("v") or {}).items() if not (isinstance(d, list) and d[:1] == ["itemref"])})
+    for k, d in (b.P.get("v") or {}).items():
+        if isinstance(d, list) and d[:1] == ["itemref"]:
+            # the parameter IS one of the items (the very object): a default / initial / fill value taken from the data
+            pool = [it for s_ in b.srcs for it in getattr(s_, "items", [])]
+            b.V[k] = pool[d[1] % len(pool)] if pool else None
     b.outer = None
     if tool.callsrc:
         b.S = [s.callable for s in b.srcs]
